@@ -1314,7 +1314,11 @@ func main() {
 
 	run.Coverage["evaluations"] = counters["evals"]
 	run.Coverage["distinct_nontrivial"] = counters["nontrivial"]
-	run.Coverage["rule"] = "cases = (mode, backend, policy or target measurement, cutoff offset, layout). A layout gives each of prod/cpu, prod/cpu2, prod2/cpu, prod2/cpu2 a multiset of <=3 files over 10 types {hour file, compacted day file} x {below C, straddling C, max==C, max==C-1us, above C}; in every sweep the focus measurement (the policy's, or cpu for a policy without filter) runs through ALL such multisets while the other three hold the multisets 95/190/285 places further on; sweeps: http (dry run + confirmed run through fiber, LocalBackend) x 6 policies ({prod,prod2} x {no filter,cpu,cpu2}); exec (ExecutePolicy, prefix-semantics backend) x 6 policies; direct (deleteOldFiles, dry + real) x targets x cutoffs C+{-1000,-999,0,1,1000}ns; cycle (daily compaction.Job, dry, run, compaction.Job, run) x 6 policies over hour-file multisets; thorough adds a clock that is not microsecond aligned (cutoff C+500ns), the other mode/backend pairs and the full product focus(<=3 files) x other measurement of the same database(<=2 files). A case is non-trivial when the covered measurements hold at least one file that must go (max(time) < cutoff) and the store holds at least one file that must stay; all cases are pairwise distinct, so distinct_nontrivial = number of non-trivial cases"
+	tierRule := "quick: http/LocalBackend x 6 policies x all 286 layouts; exec/prefix-backend x 6 policies x 286; direct/LocalBackend on prod/cpu x cutoffs C+{-1000,-999,0,1,1000}ns x 286; direct/prefix-backend on prod/cpu x cutoff C x 286; cycle x 6 policies x the 21 multisets of <=2 hour files"
+	if !run.Quick() {
+		tierRule = "thorough: http and exec on both backends x 6 policies x all 286 layouts, http/LocalBackend and exec/prefix-backend also with a clock that is not microsecond aligned (cutoff C+500ns); direct on prod/cpu and prod2/cpu2 x both backends x cutoffs C+{-1000,-999,0,1,1000}ns x 286; cycle x 6 policies x the 56 multisets of <=3 hour files; plus the full product http/LocalBackend x 6 policies x focus measurement (286 layouts of <=3 files) x other measurement of the same database (66 layouts of <=2 files)"
+	}
+	run.Coverage["rule"] = "cases = (mode, backend, policy or target measurement, cutoff offset, layout), enumerated exhaustively, simplest layout first. A layout gives each of prod/cpu, prod/cpu2, prod2/cpu, prod2/cpu2 a multiset of <=3 files over 10 types {hour file, compacted day file} x {entirely below C, straddling C, max==C, max==C-1us, entirely above C}; in every sweep the focus measurement (the policy's, or cpu for a policy without filter) runs through ALL 286 multisets while the other three hold the multisets 95/190/285 places further on (cyclically), so each of them also sees every multiset once. Policies: {prod,prod2} x {no filter, cpu, cpu2} with (retention,buffer) days (30,7),(2,1),(1,0). Modes: http = dry run then confirmed run through the fiber route; exec = ExecutePolicy; direct = deleteOldFiles dry then real with an exact cutoff; cycle = daily compaction.Job, dry run, run, compaction.Job, run. " + tierRule + ". A case is non-trivial when the covered measurements hold at least one file that must go (max(time) < cutoff) and the store holds at least one file that must stay; all cases are pairwise distinct, so distinct_nontrivial = number of non-trivial cases"
 	for k, v := range dims {
 		run.Coverage[k] = v
 	}
